@@ -113,10 +113,15 @@ theorem sumToNZ_eq (n : Nat) (f : Nat → Rat) : sumToNZ n f = sumTo n f := by
 
 /-! ## hypotheses: a valid POMDP and a belief on the simplex -/
 
-structure ValidModel (m : POMDP) : Prop where
+/-- tables with non-negative entries (all that the posterior clauses need; also true of what a
+    sparse model stores after dropping sub-threshold entries, whose rows no longer sum to one) -/
+structure NonnegModel (m : POMDP) : Prop where
   T_nonneg : ∀ s a s1, s < m.S → a < m.A → s1 < m.S → 0 ≤ m.T s a s1
-  T_sum : ∀ s a, s < m.S → a < m.A → sumTo m.S (fun s1 => m.T s a s1) = 1
   O_nonneg : ∀ s1 a o, s1 < m.S → a < m.A → o < m.O → 0 ≤ m.Ob s1 a o
+
+/-- a POMDP: non-negative tables whose rows sum to one -/
+structure ValidModel (m : POMDP) : Prop extends NonnegModel m where
+  T_sum : ∀ s a, s < m.S → a < m.A → sumTo m.S (fun s1 => m.T s a s1) = 1
   O_sum : ∀ s1 a, s1 < m.S → a < m.A → sumTo m.O (fun o => m.Ob s1 a o) = 1
 
 structure IsBelief (S : Nat) (b : Vec) : Prop where
@@ -128,13 +133,13 @@ structure IsBelief (S : Nat) (b : Vec) : Prop where
 /-- the loop branch computes exactly the Bayes weight `O(s1,a,o) Σ_s T(s,a,s1) b(s)` (by definition) -/
 theorem unnormG_eq_weight (m : POMDP) (b : Vec) (a o : Nat) : unnormG m b a o = weight m b a o := rfl
 
-theorem predict_nonneg {m : POMDP} (hm : ValidModel m) {b : Vec} (hb : ∀ s, s < m.S → 0 ≤ b s)
+theorem predict_nonneg {m : POMDP} (hm : NonnegModel m) {b : Vec} (hb : ∀ s, s < m.S → 0 ≤ b s)
     {a : Nat} (ha : a < m.A) : ∀ s1, s1 < m.S → 0 ≤ predictG m b a s1 := by
   intro s1 hs1
   exact sumTo_nonneg (fun s hs => mul_nonneg (hm.T_nonneg s a s1 hs ha hs1) (hb s hs))
 
 /-- C05 clause "non-negative" (unnormalised form) -/
-theorem unnorm_nonneg {m : POMDP} (hm : ValidModel m) {b : Vec} (hb : ∀ s, s < m.S → 0 ≤ b s)
+theorem unnorm_nonneg {m : POMDP} (hm : NonnegModel m) {b : Vec} (hb : ∀ s, s < m.S → 0 ≤ b s)
     {a o : Nat} (ha : a < m.A) (ho : o < m.O) : ∀ s1, s1 < m.S → 0 ≤ unnormG m b a o s1 := by
   intro s1 hs1
   exact mul_nonneg (hm.O_nonneg s1 a o hs1 ha ho) (predict_nonneg hm hb ha s1 hs1)
@@ -165,7 +170,7 @@ theorem sum_over_o_eq_predict {m : POMDP} (hm : ValidModel m) (b : Vec) {a : Nat
 /-- the predicted next-state vector (`updateBeliefPartial`) is a probability distribution -/
 theorem predict_is_distribution {m : POMDP} (hm : ValidModel m) {b : Vec} (hb : IsBelief m.S b)
     {a : Nat} (ha : a < m.A) : IsBelief m.S (predictG m b a) := by
-  refine ⟨predict_nonneg hm hb.nonneg ha, ?_⟩
+  refine ⟨predict_nonneg hm.toNonnegModel hb.nonneg ha, ?_⟩
   unfold predictG
   rw [sumTo_comm]
   have : ∀ s, s < m.S → sumTo m.S (fun s1 => m.T s a s1 * b s) = b s := by
@@ -174,7 +179,7 @@ theorem predict_is_distribution {m : POMDP} (hm : ValidModel m) {b : Vec} (hb : 
   rw [sumTo_congr this, hb.sum_one]
 
 /-- `P(· | b,a)` is a probability distribution over observations -/
-theorem probO_nonneg {m : POMDP} (hm : ValidModel m) {b : Vec} (hb : ∀ s, s < m.S → 0 ≤ b s)
+theorem probO_nonneg {m : POMDP} (hm : NonnegModel m) {b : Vec} (hb : ∀ s, s < m.S → 0 ≤ b s)
     {a o : Nat} (ha : a < m.A) (ho : o < m.O) : 0 ≤ probO m b a o := by
   rw [← unnorm_sum_eq_prob_o]
   exact sumTo_nonneg (unnorm_nonneg hm hb ha ho)
@@ -188,7 +193,7 @@ theorem probO_sum_one {m : POMDP} (hm : ValidModel m) {b : Vec} (hb : IsBelief m
 
 /-- an observation of probability zero has an all-zero unnormalised update (why the normalised
     form is excluded there: the library divides 0 by 0) -/
-theorem unnorm_zero_of_prob_zero {m : POMDP} (hm : ValidModel m) {b : Vec} (hb : ∀ s, s < m.S → 0 ≤ b s)
+theorem unnorm_zero_of_prob_zero {m : POMDP} (hm : NonnegModel m) {b : Vec} (hb : ∀ s, s < m.S → 0 ≤ b s)
     {a o : Nat} (ha : a < m.A) (ho : o < m.O) (hz : probO m b a o = 0) :
     ∀ s1, s1 < m.S → unnormG m b a o s1 = 0 := by
   rw [← unnorm_sum_eq_prob_o] at hz
@@ -203,7 +208,7 @@ theorem normalize_sum {S : Nat} {v : Vec} (h : sumTo S v ≠ 0) : sumTo S (norma
 /-- C05 main clause.  For an observation of positive probability the result of `updateBelief` is
     non-negative, sums to one, and is the Bayes weight divided by `P(o | b,a)` — i.e. proportional to
     `O(s1,a,o) Σ_s T(s,a,s1) b(s)` with the one constant that makes it a distribution. -/
-theorem posterior_is_bayes {m : POMDP} (hm : ValidModel m) {b : Vec} (hb : ∀ s, s < m.S → 0 ≤ b s)
+theorem posterior_is_bayes {m : POMDP} (hm : NonnegModel m) {b : Vec} (hb : ∀ s, s < m.S → 0 ≤ b s)
     {a o : Nat} (ha : a < m.A) (ho : o < m.O) (hpos : 0 < probO m b a o) :
     (∀ s1, s1 < m.S → 0 ≤ updateG m b a o s1) ∧
     sumTo m.S (updateG m b a o) = 1 ∧
@@ -244,7 +249,7 @@ theorem total_probability {m : POMDP} (hm : ValidModel m) {b : Vec} (hb : ∀ s,
   unfold updateG normalize
   rw [unnorm_sum_eq_prob_o]
   by_cases hz : probO m b a o = 0
-  · rw [hz, zero_mul, unnorm_zero_of_prob_zero hm hb ha ho hz s1 hs1]
+  · rw [hz, zero_mul, unnorm_zero_of_prob_zero hm.toNonnegModel hb ha ho hz s1 hs1]
   · field_simp
 
 /-! ## two-stage (predict, then correct) helpers -/
@@ -447,6 +452,22 @@ theorem sparse_within_two_tol {m : POMDP} (hm : ValidModel m) {b : Vec} (hb : Is
     have h2 : keep tol (m.Ob s1 a o) * (P - P') ≤ 1 * tol := mul_le_mul (le_trans hkO hO1) hdP hdP0 (by norm_num)
     linarith
 
+/-- what a sparse model stores is still a table of non-negative numbers … -/
+theorem sparsify_nonneg {m : POMDP} (hm : NonnegModel m) {tol : Rat} (htol : 0 ≤ tol) : NonnegModel (sparsify tol m) :=
+  ⟨fun s a s1 hs ha hs1 => (keep_bounds htol (hm.T_nonneg s a s1 hs ha hs1)).1,
+   fun s1 a o hs1 ha ho => (keep_bounds htol (hm.O_nonneg s1 a o hs1 ha ho)).1⟩
+
+/-- … so `updateBelief` on a `SparseModel` is the exact Bayes posterior of the tables it stores, even when
+    sub-threshold entries were dropped and its rows no longer sum to one -/
+theorem posterior_is_bayes_sparse {m : POMDP} (hm : NonnegModel m) {tol : Rat} (htol : 0 ≤ tol)
+    {b : Vec} (hb : ∀ s, s < m.S → 0 ≤ b s) {a o : Nat} (ha : a < m.A) (ho : o < m.O)
+    (hpos : 0 < probO (sparsify tol m) b a o) :
+    (∀ s1, s1 < m.S → 0 ≤ updateG (sparsify tol m) b a o s1) ∧
+    sumTo m.S (updateG (sparsify tol m) b a o) = 1 ∧
+    (∀ s1, updateG (sparsify tol m) b a o s1 = weight (sparsify tol m) b a o s1 / probO (sparsify tol m) b a o) :=
+  let h := posterior_is_bayes (sparsify_nonneg hm htol) (b := b) hb (a := a) (o := o) ha ho hpos
+  ⟨h.1, h.2.1, h.2.2.1⟩
+
 /-! ## beliefExpectedReward -/
 
 theorem rewardLoop_eq (m : POMDP) (b : Vec) (a : Nat) (n : Nat) :
@@ -564,7 +585,7 @@ theorem forward_sum_eq_seqProb (m : POMDP) :
     field_simp
 
 /-- the forward vector stays non-negative along any history -/
-theorem forward_nonneg {m : POMDP} (hm : ValidModel m) :
+theorem forward_nonneg {m : POMDP} (hm : NonnegModel m) :
     ∀ (h : List (Nat × Nat)) (v : Vec), (∀ s, s < m.S → 0 ≤ v s) →
       (∀ p ∈ h, p.1 < m.A ∧ p.2 < m.O) → ∀ s, s < m.S → 0 ≤ forward m v h s
   | [], _, hv, _ => hv
@@ -573,6 +594,24 @@ theorem forward_nonneg {m : POMDP} (hm : ValidModel m) :
     have hao := hh (a, o) (List.mem_cons_self ..)
     exact forward_nonneg hm h _ (unnorm_nonneg hm hv hao.1 hao.2)
       (fun p hp => hh p (List.mem_cons_of_mem _ hp))
+
+theorem forward_append (m : POMDP) : ∀ (h : List (Nat × Nat)) (b : Vec) (a o : Nat),
+    forward m b (h ++ [(a, o)]) = unnormG m (forward m b h) a o
+  | [], _, _, _ => rfl
+  | (a', o') :: h, b, a, o => by
+    simp only [List.cons_append, forward]
+    exact forward_append m h _ a o
+
+/-- the belief is a sufficient statistic: the probability of the next observation computed from the
+    filtered belief alone equals the one computed from the whole history (ratio of forward masses) -/
+theorem belief_sufficient (m : POMDP) {b : Vec} (hb : sumTo m.S b = 1) (h : List (Nat × Nat))
+    (hp : PosHist m b h) (a o : Nat) :
+    probO m (filter m b h) a o = sumTo m.S (forward m b (h ++ [(a, o)])) / sumTo m.S (forward m b h) := by
+  rw [filter_eq_forward m hb h hp, forward_append, ← unnorm_sum_eq_prob_o]
+  have e : normalize m.S (forward m b h) = fun s => (1 / sumTo m.S (forward m b h)) * forward m b h s := by
+    funext s; unfold normalize; ring
+  rw [e, unnorm_smul, sumTo_mul_left]
+  ring
 
 /-! ## Bayes semantics made explicit: the update is a conditional probability of the joint distribution -/
 
@@ -588,7 +627,7 @@ theorem joint_sum_one {m : POMDP} (hm : ValidModel m) {b : Vec} (hb : IsBelief m
     rw [sumTo_congr h2, sumTo_mul_left, hm.T_sum s a hs ha, mul_one]
   rw [sumTo_congr h1, hb.sum_one]
 
-theorem joint_nonneg {m : POMDP} (hm : ValidModel m) {b : Vec} (hb : ∀ s, s < m.S → 0 ≤ b s) {a : Nat} (ha : a < m.A)
+theorem joint_nonneg {m : POMDP} (hm : NonnegModel m) {b : Vec} (hb : ∀ s, s < m.S → 0 ≤ b s) {a : Nat} (ha : a < m.A)
     {s s1 o : Nat} (hs : s < m.S) (hs1 : s1 < m.S) (ho : o < m.O) : 0 ≤ joint m b a s s1 o :=
   mul_nonneg (mul_nonneg (hb s hs) (hm.T_nonneg s a s1 hs ha hs1)) (hm.O_nonneg s1 a o hs1 ha ho)
 
@@ -654,7 +693,7 @@ theorem allLt_iff {n : Nat} {p : Nat → Bool} : allLt n p = true ↔ ∀ i, i <
   simp [allLt, List.all_eq_true, List.mem_range]
 
 /-- a reported vector that passes `checkUnnorm` satisfies every clause of C05, whatever code produced it -/
-theorem checkUnnorm_sound {m : POMDP} (hm : ValidModel m) {b : Vec} (hb : ∀ s, s < m.S → 0 ≤ b s)
+theorem checkUnnorm_sound {m : POMDP} (hm : NonnegModel m) {b : Vec} (hb : ∀ s, s < m.S → 0 ≤ b s)
     {a o : Nat} (ha : a < m.A) (ho : o < m.O) (impl : Vec) (h : checkUnnorm m b a o impl = true) :
     (∀ s1, s1 < m.S → 0 ≤ impl s1) ∧
     sumTo m.S impl = probO m b a o ∧
@@ -718,16 +757,16 @@ def exM : POMDP :=
 def exB : Vec := ofList [1/8, 5/8, 1/4]
 
 theorem exM_valid : ValidModel exM := by
-  constructor
+  refine ⟨⟨?_, ?_⟩, ?_, ?_⟩
   · intro s a s1 hs ha hs1
     simp only [exM] at hs hs1
     interval_cases s <;> interval_cases s1 <;> norm_num [exM, ofList2]
-  · intro s a hs ha
-    simp only [exM] at hs
-    interval_cases s <;> norm_num [exM, ofList2, sumTo]
   · intro s1 a o hs1 ha ho
     simp only [exM] at hs1 ho
     interval_cases s1 <;> interval_cases o <;> norm_num [exM, ofList2]
+  · intro s a hs ha
+    simp only [exM] at hs
+    interval_cases s <;> norm_num [exM, ofList2, sumTo]
   · intro s1 a hs1 ha
     simp only [exM] at hs1
     interval_cases s1 <;> norm_num [exM, ofList2, sumTo]
@@ -743,7 +782,7 @@ theorem ex_probO : probO exM exB 0 0 = 53/128 := by
 
 /-- the hypotheses of `posterior_is_bayes` hold for `exM`, `exB`, a = 0, o = 0 -/
 example : (∀ s1, s1 < 3 → 0 ≤ updateG exM exB 0 0 s1) ∧ sumTo 3 (updateG exM exB 0 0) = 1 :=
-  let h := posterior_is_bayes exM_valid exB_belief.nonneg (a := 0) (o := 0) (by decide) (by decide)
+  let h := posterior_is_bayes exM_valid.toNonnegModel exB_belief.nonneg (a := 0) (o := 0) (by decide) (by decide)
     (by rw [ex_probO]; norm_num)
   ⟨h.1, h.2.1⟩
 
